@@ -7,6 +7,7 @@
 package qnet
 
 import (
+	"strings"
 	"context"
 	"errors"
 	"net"
@@ -22,9 +23,15 @@ func (a Addr) Network() string { return "qnet" }
 func (a Addr) String() string  { return string(a) }
 
 // ParseAddr parses a dial string into an Addr (every non-empty string is valid).
+// A dial string of the form "alias:<addr>" resolves to <addr>, like a host
+// name resolving to an IP address: the string a caller dials then differs from
+// the canonical string of the address the session reports.
 func ParseAddr(s string) (net.Addr, error) {
 	if s == "" {
 		return nil, errors.New("qnet: empty address")
+	}
+	if r := strings.TrimPrefix(s, "alias:"); r != s && r != "" {
+		return Addr(r), nil
 	}
 	return Addr(s), nil
 }
